@@ -7,13 +7,17 @@ import (
 	"os"
 	"testing"
 
+	"github.com/llir/llvm/asm"
 	"github.com/llir/llvm/ir"
 	"github.com/llir/llvm/ir/constant"
 	"github.com/llir/llvm/ir/enum"
+	"github.com/llir/llvm/ir/metadata"
 	"github.com/llir/llvm/ir/types"
 	"github.com/llir/llvm/ir/value"
 	"pgregory.net/rapid"
 
+	"verif/h/corpus"
+	"verif/h/gen"
 	"verif/h/hx"
 	"verif/h/llvmx"
 	"verif/h/lx"
@@ -162,6 +166,41 @@ func (w *world) dropUses(in any) {
 func (w *world) apply(s Step, observe bool) (printed string, isPrint bool) {
 	m := w.m
 	switch s.Op {
+	case "base":
+		// start from a parsed module (only meaningful as the first step): Name holds the text
+		pm, err := asm.ParseString("<base>", s.Name)
+		if err != nil {
+			panic(err)
+		}
+		w.m = pm
+		for _, f := range pm.Funcs {
+			for _, b := range f.Blocks {
+				users := []any{b.Term}
+				for _, in := range b.Insts {
+					users = append(users, in)
+				}
+				for _, u := range users {
+					if ou, ok := u.(interface{ Operands() []*value.Value }); ok {
+						for _, slot := range ou.Operands() {
+							if *slot != nil {
+								w.uses[*slot]++
+								// a value passed as metadata (llvm.dbg.value(metadata i32 %x, ...)) is used too
+								var inner value.Value = *slot
+								if a, ok := inner.(*ir.Arg); ok {
+									inner = a.Value // an argument with parameter attributes wraps the value it passes
+									w.uses[inner]++
+								}
+								if mv, ok := inner.(*metadata.Value); ok && mv.Value != nil {
+									if vv, ok := mv.Value.(value.Value); ok {
+										w.uses[vv]++
+									}
+								}
+							}
+						}
+					}
+				}
+			}
+		}
 	case "addGlobal":
 		name := ""
 		if s.Name != "" {
@@ -233,6 +272,9 @@ func (w *world) apply(s Step, observe bool) (printed string, isPrint bool) {
 	case "replaceTerm":
 		if f := w.fn(s.A); f != nil {
 			b := f.Blocks[pick(len(f.Blocks), s.B)]
+			if v, ok := b.Term.(value.Value); ok && w.uses[v] > 0 {
+				break // a terminator whose result is still used (invoke, callbr, catchswitch): real callers do not drop it
+			}
 			w.dropUses(b.Term)
 			switch pick(4, s.C) {
 			case 0:
@@ -457,6 +499,46 @@ func TestHistories(t *testing.T) {
 		}
 		js, _ := json.Marshal(steps[:min(len(steps), 12)])
 		hx.SampleCase(test, string(js)+" …")
+	})
+}
+
+func TestHistoriesOnParsedModules(t *testing.T) {
+	const test = "HistoriesOnParsedModules"
+	hx.Rule(test, "the same histories, starting from a parsed module instead of an empty one: small clang-14 outputs (corpus/src x flag sets, <= 40 KB: real metadata, attributes, unnamed values numbered by the parser) and generated modules; edits and observers as in Histories (3..30 steps). Oracle as in Histories. Non-trivial = an observer followed by an edit that shifts numbering")
+	var bases []string
+	for i, c := range corpus.ClangCases() {
+		if i%2 == 0 {
+			if x := c.Text(); x != "" && len(x) <= 40<<10 {
+				if _, err, p := lx.Parse(x); err == nil && p == nil {
+					bases = append(bases, x)
+				}
+			}
+		}
+	}
+	hx.Check(t, test, hx.N(120, 4000), func(rt *rapid.T) {
+		var base string
+		if len(bases) > 0 && rapid.IntRange(0, 2).Draw(rt, "basekind") != 0 {
+			base = bases[rapid.IntRange(0, len(bases)-1).Draw(rt, "base")]
+		} else {
+			cfg := gen.DefaultCfg()
+			cfg.UnnamedBias = 6
+			cfg.Off = map[string]bool{"retattr-align": true, "freeze-metadata": true}
+			m, _ := gen.Module(rt, cfg)
+			base = m.Text()
+		}
+		h := genHistory(rt)
+		if len(h) > 32 {
+			h = h[:32]
+		}
+		steps := append([]Step{{Op: "base", Name: base}}, h[2:]...)
+		hx.Eval(1)
+		checkHistory(rt, test, steps)
+		if shiftsNumbering(steps) {
+			hx.NonTrivial(fmt.Sprintf("%x/%v", hx.Hash64(base), steps[1:]))
+			hx.Hist("parsed_history/observer_then_numbering_shift")
+		} else {
+			hx.Hist("parsed_history/other")
+		}
 	})
 }
 
